@@ -17,6 +17,23 @@ def main():
                 print("setup: warm-up of variant %s failed (checks will rebuild): %s" % (variant, str(e)[-800:]))
         finally:
             shutil.rmtree(ov, ignore_errors=True)
+    # variant "st" (real storage layer, sync RandomAccess model) and the nightly MIR dump of core.rs
+    ov = "/var/tmp/hcverif.setup.%d" % os.getpid()
+    try:
+        overlay.build(ov, variant="st")
+        try:
+            K.codegen(ov, ["c13_have_from_update"], variant="st")
+        except Exception as e:
+            print("setup: warm-up of variant st failed (checks will rebuild): %s" % str(e)[-800:])
+    finally:
+        shutil.rmtree(ov, ignore_errors=True)
+    try:
+        import mirpath
+        mirpath.dump_mir(ov)
+    except Exception as e:
+        print("setup: warm-up of the MIR dump failed (checks will rebuild): %s" % str(e)[-800:])
+    finally:
+        shutil.rmtree(ov, ignore_errors=True)
     print("setup done")
 
 if __name__ == "__main__":
